@@ -84,7 +84,7 @@ func reEntry(re string) ReEntry {
 	return ReEntry{Re: re}
 }
 
-var valuePool = []string{"a", "b", "c", "users", "v1", "x.y", "a-b", "é", "A", "42", "ab", "a:b1", "3:4", "x1", "7", "NL", "a.json", "pre-x", "zz", "a b"}
+var valuePool = []string{"a", "b", "c", "users", "v1", "x.y", "a-b", "é", "A", "42", "ab", "a:b1", "3:4", "x1", "7", "NL", "a.json", "pre-x", "zz", "a b", "a:b", "acme:eu", "x:run"}
 
 var verbPool = []string{"run", "stop"}
 
@@ -94,7 +94,19 @@ var oddMethods = []string{"FOO", "get"}
 // MediaPool are the media types used in Consumes/Produces and request headers.
 var MediaPool = []string{"application/json", "application/xml", "text/plain", "application/octet-stream", "application/vnd.x+json"}
 
-var affixPool = [][2]string{{"", ".foo"}, {"p_", ""}, {"foo_", "_bar"}, {"", "_x"}, {"v", ""}}
+var affixPool = [][2]string{{"", ".foo"}, {"p_", ""}, {"foo_", "_bar"}, {"", "_x"}, {"v", ""}, {"ab", "ba"}, {"x", "x"}}
+
+// overlapJoin glues prefix and suffix so that they share their common boundary characters
+// ("foo_" + "_bar" -> "foo_bar"): a token that starts with the prefix and ends with the suffix
+// but is too short to hold both.
+func overlapJoin(pre, suf string) string {
+	for k := min(len(pre), len(suf)); k > 0; k-- {
+		if strings.HasSuffix(pre, suf[:k]) {
+			return pre + suf[k:]
+		}
+	}
+	return pre + suf
+}
 
 func pick(t *rapid.T, label string, pool []string) string {
 	return pool[rapid.IntRange(0, len(pool)-1).Draw(t, label)]
@@ -111,6 +123,13 @@ type tableCtx struct {
 }
 
 func (c *tableCtx) lit(t *rapid.T) string { return pick(t, "lit", c.lits) }
+
+// varName draws a variable name that is unique within root+route: a drawn stem plus the
+// position. Names take part in path-string tie-breaks, so they are varied on purpose.
+func varName(t *rapid.T, prefix string, i int) string {
+	stem := rapid.SampledFrom([]string{"", "", "a", "z", "id", "x", "B"}).Draw(t, "namestem")
+	return prefix + stem + strconv.Itoa(i)
+}
 
 func (c *tableCtx) seg(t *rapid.T, name string, root, last bool) model.Seg {
 	cfg := c.cfg
@@ -177,7 +196,7 @@ func (c *tableCtx) template(t *rapid.T, prefix string, root bool, maxSegs int) m
 	n := rapid.IntRange(0, maxSegs).Draw(t, "nsegs")
 	tp := make(model.Template, 0, n)
 	for i := 0; i < n; i++ {
-		tp = append(tp, c.seg(t, prefix+strconv.Itoa(i), root, i == n-1))
+		tp = append(tp, c.seg(t, varName(t, prefix, i), root, i == n-1))
 	}
 	return tp
 }
@@ -188,11 +207,26 @@ func (c *tableCtx) mutateTemplate(t *rapid.T, src model.Template, prefix string,
 	tp := append(model.Template{}, src...)
 	nmut := rapid.IntRange(1, 2).Draw(t, "nmut")
 	for m := 0; m < nmut; m++ {
-		op := rapid.IntRange(0, 5).Draw(t, "mutop")
+		op := rapid.IntRange(0, 6).Draw(t, "mutop")
 		switch {
+		case op == 6 && !root && c.cfg.Tail && len(tp) > 0:
+			// tail wildcard <-> one or two plain variables (same URLs, different parameter counts)
+			l := len(tp) - 1
+			if tp[l].Kind == model.Tail {
+				tp[l] = model.Seg{Kind: model.Var, Name: varName(t, prefix, l)}
+				if len(tp) < maxSegs+1 && rapid.Bool().Draw(t, "twovars") {
+					tp = append(tp, model.Seg{Kind: model.Var, Name: varName(t, prefix, l+1)})
+				}
+			} else if tp[l].Kind == model.Var && tp[l].Verb == "" {
+				if l > 0 && tp[l-1].Kind == model.Var && rapid.Bool().Draw(t, "foldtwo") {
+					tp = tp[:l]
+					l--
+				}
+				tp[l] = model.Seg{Kind: model.Tail, Name: varName(t, prefix, l)}
+			}
 		case op <= 2 && len(tp) > 0: // re-draw one segment
 			i := rapid.IntRange(0, len(tp)-1).Draw(t, "mutpos")
-			tp[i] = c.seg(t, prefix+strconv.Itoa(i), root, i == len(tp)-1)
+			tp[i] = c.seg(t, varName(t, prefix, i), root, i == len(tp)-1)
 		case op == 3 && len(tp) < maxSegs: // extend
 			if len(tp) > 0 {
 				l := &tp[len(tp)-1]
@@ -201,18 +235,25 @@ func (c *tableCtx) mutateTemplate(t *rapid.T, src model.Template, prefix string,
 				}
 				l.Verb = ""
 			}
-			tp = append(tp, c.seg(t, prefix+strconv.Itoa(len(tp)), root, true))
+			tp = append(tp, c.seg(t, varName(t, prefix, len(tp)), root, true))
 		case op == 4 && len(tp) > 0: // shorten
 			tp = tp[:len(tp)-1]
 		default: // flip literal <-> plain variable somewhere
 			if len(tp) > 0 {
 				i := rapid.IntRange(0, len(tp)-1).Draw(t, "flippos")
 				v := tp[i].Verb
-				if tp[i].Kind == model.Lit {
+				switch {
+				case tp[i].Kind == model.Lit:
 					if !root || c.cfg.RootVars {
-						tp[i] = model.Seg{Kind: model.Var, Name: prefix + strconv.Itoa(i), Verb: v}
+						tp[i] = model.Seg{Kind: model.Var, Name: varName(t, prefix, i), Verb: v}
 					}
-				} else {
+				case tp[i].Kind == model.Affix:
+					// a literal that the affixed variable also matches
+					tp[i] = model.Seg{Kind: model.Lit, Lit: tp[i].Pre + c.lit(t) + tp[i].Suf, Verb: v}
+				case tp[i].Kind == model.VarRe && len(reEntry(tp[i].Re).Match) > 0 && rapid.Bool().Draw(t, "litfromre"):
+					// a literal that satisfies the regular expression
+					tp[i] = model.Seg{Kind: model.Lit, Lit: pick(t, "relit", reEntry(tp[i].Re).Match), Verb: v}
+				default:
 					tp[i] = model.Seg{Kind: model.Lit, Lit: c.lit(t), Verb: v}
 				}
 			}
@@ -227,7 +268,9 @@ func (c *tableCtx) mutateTemplate(t *rapid.T, src model.Template, prefix string,
 			tp[i].Verb = ""
 		}
 		if tp[i].IsVar() {
-			tp[i].Name = prefix + strconv.Itoa(i)
+			// keep the stem, re-number by position so that names stay unique
+			stem := strings.TrimRight(strings.TrimPrefix(tp[i].Name, prefix), "0123456789")
+			tp[i].Name = prefix + stem + strconv.Itoa(i)
 		}
 	}
 	return tp
@@ -439,7 +482,14 @@ func instantiate(t *rapid.T, full model.Template, lits []string) []string {
 		case model.Lit:
 			v = s.Lit
 		case model.Affix:
-			v = s.Pre + valueFor(t, s, lits) + s.Suf
+			switch rapid.IntRange(0, 9).Draw(t, "affixform") {
+			case 0:
+				v = overlapJoin(s.Pre, s.Suf)
+			case 1:
+				v = s.Pre + s.Suf
+			default:
+				v = s.Pre + valueFor(t, s, lits) + s.Suf
+			}
 		case model.Tail:
 			n := rapid.IntRange(1, 3).Draw(t, "tailn")
 			for i := 0; i < n; i++ {
